@@ -40,6 +40,7 @@ type NamedResult struct {
 	Failed    []*Obligation // instances not discharged
 	Backends  map[string]int
 	TimeS     float64
+	MaxS      float64
 	Descr     string
 	Pos       string
 }
@@ -344,10 +345,10 @@ func RunCheck(opt Options) int {
 	os.RemoveAll(outDir)
 	os.MkdirAll(outDir, 0o755)
 
-	timeout := 5
+	timeout := 15
 	order := []string{"z3-new", "cvc5", "z3"}
 	if opt.Tier == "thorough" {
-		timeout = 20
+		timeout = 40
 		solveAll = true
 	}
 	var reports []*FuncReport
@@ -483,6 +484,9 @@ func RunCheck(opt Options) int {
 			if ct := P.Contracts[fn]; ct != nil && hasProp(ct.Props, "C02") {
 				continue
 			}
+			if P.Contracts[fn] == nil && P.onlyInlined(fn) {
+				continue // an unexported helper without contract that is executed inline at every call site
+			}
 			if opt.Only != "" && !strings.Contains(relName(fn), opt.Only) {
 				continue
 			}
@@ -516,6 +520,9 @@ func RunCheck(opt Options) int {
 			nr.Trivial = true
 		}
 		nr.TimeS += ob.Result.TimeS
+		if ob.Result.TimeS > nr.MaxS {
+			nr.MaxS = ob.Result.TimeS
+		}
 		solverTime += ob.Result.TimeS
 		if ob.Result.Status == "unsat" {
 			nr.Backends[ob.Result.Backend]++
@@ -640,7 +647,7 @@ func RunCheck(opt Options) int {
 	wall := time.Since(start).Seconds()
 	ev := Evidence{PropertyID: opt.Prop, Tier: opt.Tier, Seed: opt.Seed, Level: "proof", WallS: wall, Violations: violations}
 	var fnNames []string
-	var unsup, uncontracted, ext, ifaces, trusted, assumed []string
+	var unsup, uncontracted, ext, ifaces, trusted, assumed, inlinedFns []string
 	paths, dead, havocAll := 0, 0, 0
 	for _, rep := range reports {
 		if rep.Full {
@@ -654,6 +661,7 @@ func RunCheck(opt Options) int {
 		}
 		if rep.Full {
 			uncontracted = append(uncontracted, rep.Uncontracted...)
+			inlinedFns = append(inlinedFns, rep.Inlined...)
 			ext = append(ext, rep.ExtUsed...)
 			ifaces = append(ifaces, rep.IfaceUsed...)
 			trusted = append(trusted, rep.TrustedUsed...)
@@ -680,6 +688,12 @@ func RunCheck(opt Options) int {
 		"integers are mathematical Int with exact machine ranges; wrap-around modelled exactly where the contract says `wraps` and in the sweep",
 	}
 	tb = append(tb, propAssumptions(opt.Prop)...)
+	slowest := 0.0
+	for _, ob := range obs {
+		if ob.Result.TimeS > slowest {
+			slowest = ob.Result.TimeS
+		}
+	}
 	ev.Coverage = map[string]interface{}{
 		"obligations":              len(names) - len(knownHit),
 		"discharged":               discharged,
@@ -698,6 +712,7 @@ func RunCheck(opt Options) int {
 		"documented_panic_paths":   dead,
 		"out_of_reach":             uniq(unsup),
 		"callees_without_contract": uniq(uncontracted),
+		"helpers_executed_inline":  uniq(inlinedFns),
 		"external_assumed":         uniq(ext),
 		"interface_contracts_used": uniq(ifaces),
 		"trusted_contracts_used":   uniq(trusted),
@@ -708,6 +723,7 @@ func RunCheck(opt Options) int {
 		"vacuous":                  vacuous,
 		"samples":                  samples,
 		"ledger_obligations":       len(ledger),
+		"slowest_instance_s":       round3(slowest),
 		"rebound":                  P.Rebound,
 	}
 	// blocks that lie only on paths whose assumptions are unsatisfiable: dead code, or an
@@ -811,7 +827,7 @@ func RunCheck(opt Options) int {
 			if len(nr.Failed) > 0 {
 				status = "FAIL(" + nr.Failed[0].Result.Status + ")"
 			}
-			fmt.Printf("  %-8s %s  [%d inst, %.2fs] %s\n", status, n, nr.Instances, nr.TimeS, nr.Pos)
+			fmt.Printf("  %-8s %s  [%d inst, %.2fs, max %.2fs] %s\n", status, n, nr.Instances, nr.TimeS, nr.MaxS, nr.Pos)
 			if os.Getenv("GOWP_DEBUG") == "trail" {
 				for _, ob := range obs {
 					if ob.Name == n {
